@@ -35,7 +35,7 @@ ASSUMPTIONS = ["truth is judged only for currently registered listeners and only
 FLOORS = {"quick": {"histories": 60000, "exhaustive_core_histories": 50000, "random_histories": 3000, "idle_truth_checks": 2000000,
                     "alternation_events": 100000, "reboot_order_checks": 2000, "same_iteration_placements": 20000,
                     "deadline_before_placements": 5000, "deadline_after_placements": 5000, "offered_required_checks": 50000,
-                    "mesh_scenarios": 100, "mesh_final_checks_watcher": 150, "mesh_alternation_events": 1000}}
+                    "mesh_scenarios": 100, "mesh_final_checks_watcher": 90, "mesh_alternation_events": 600}}
 # system-level shards: the mesh workload of pv/mesh.py under this property's boundary monitors (reports of other monitors are dropped)
 MESH = {"want": ("converge",), "claim": ("mesh:watcher-does-not-converge", "mesh:discovery-listener-history"),
         "quick": (2, 60), "thorough": (16, 1500)}
